@@ -130,13 +130,13 @@ func (nm LNumber) Format(f fmt.State, c rune) {
 	case 'q', 's':
 		defaultFormat(nm.String(), f, c)
 	case 'c':
-		// C's %c writes one byte; Go's writes the UTF-8 encoding of the code point
-		defaultFormat(string([]byte{byte(int64(nm))}), f, 's')
+		// C's %c writes one byte (Go's writes the UTF-8 encoding of the code point) and ignores a precision
+		writePadded(f, string([]byte{byte(int64(nm))}))
 	case 'o', 'x', 'X':
 		// C converts the argument of these directives to an unsigned integer: -1 is ffffffffffffffff
-		defaultFormat(uint64(int64(nm)), f, c)
+		defaultFormat(uint64(int64(nm)), unsignedState{f, int64(nm) == 0}, c)
 	case 'u':
-		defaultFormat(uint64(int64(nm)), f, 'd')
+		defaultFormat(uint64(int64(nm)), unsignedState{f, false}, 'd')
 	case 'b', 'd', 'U':
 		defaultFormat(int64(nm), f, c)
 	case 'e', 'E', 'f', 'F', 'g', 'G':
